@@ -9,7 +9,15 @@ CLAIMED = {
    note="Trusted base: sim/prims.py model of multiprocessing.Queue/Process/Pipe/Event (read off CPython 3.12); parent-side threads are pre-empted at primitive operations only; outputs picklable and never None.",
    tech="deterministic simulation: seeded scheduler over baton-passed threads + fault injection (filter raise, consumer abandon, feeder delay, bounded pipe), multiset/termination oracle"),
 }
-PENDING = {k: "claimed in DESIGN.md; check under construction in this round (deterministic-simulation engine exists, driver not yet committed)" for k in ("C01","C02","C03","C04","C05","C07","C12","C19")}
+CLAIMED["C19"] = dict(cat="exploration", ref="DESIGN.md 3.9",
+   text="Seeded search over interleavings of 2-5 callers (threads sharing one ConcurrentCacher or processes with one each) at the granularity of lock operations, every shared-array element access, inner-cache operations, getter lines and disk writes, under virtual time, with injected getter/body failures, gzip write errors and torn files followed by a restart phase; invariants (exclusion, single flight, completeness, release) are monitored inside an instrumented inner cache and over the recorded history.",
+   note="Trusted base: SimLock/SimArray/virtual clock stand in for multiprocessing.Lock/RawArray/time.sleep; callers always enter the with-block; nested keys are taken in increasing lock-index order; a crash leaves a byte-prefix of the gzip file.",
+   tech="deterministic simulation: seeded scheduler + virtual clock + fault injection (getter/body raise, disk write error, torn file + restart), invariant monitor and history oracle")
+CLAIMED["C01"] = dict(cat="exploration", ref="DESIGN.md 3.1",
+   text="Differential check: each generated experiment is executed in-process, on the simulated multiprocessing layer under a sampled (processes, maxchunksperchild, maxtasksperchunk) and one seeded schedule of workers/threads/queues, and in-process again; all four tables and .experiment must agree. Sampling over experiments, configurations and schedules.",
+   note="Trusted base: simulated multiprocessing primitives (sim/prims.py); per-pid virtualisation of CobaContext / coba.random / UniqueKey (a worker starts from pristine globals, as a spawned interpreter does); components deterministic as the property requires; optional packages absent.",
+   tech="deterministic simulation: real Experiment.run on simulated worker processes under a seeded scheduler, differential oracle against the in-process run")
+PENDING = {k: "claimed in DESIGN.md; check under construction in this round (deterministic-simulation engine exists, driver not yet committed)" for k in ("C02","C03","C04","C05","C07","C12")}
 NA = {
  "C06": "SequentialCB is a single-threaded loop whose outputs are a pure function of (environment, learner, mode); no schedule, clock, fault or crash point occurs in the property.",
  "C09": "Ordering/selection filters are pure functions of (input sequence, parameters, seed); nothing for a simulator to schedule or fault.",
